@@ -1,9 +1,11 @@
 package harness
 
 import (
+	"encoding/json"
 	"fmt"
 	"os"
 	"regexp"
+	"runtime"
 	"hash/fnv"
 	"sort"
 	"strings"
@@ -381,4 +383,40 @@ func (e *Env) AdvanceNet(w interface {
 		}
 	}
 	panic(harnessError{"AdvanceNet did not terminate"})
+}
+
+// livenessProps are the properties whose statements promise progress (delivery once the link is
+// up, a logout notification when the connection ends, no hang, dead-peer disconnect): for them an
+// engine that can no longer be stopped is a violation; for the others it is reported as an
+// infrastructure failure.
+var livenessProps = map[string]bool{"C05": true, "C08": true, "C09": true, "C20": true}
+
+// EngineStuck is called when an engine does not stop within its bound. The bubble can never finish
+// in that case (the stuck session's ticker keeps simulated time running), so the worker cannot
+// return normally: it writes an emergency replay file (seed + decisions so far) and exits with
+// status 4; the runner confirms it by replaying that file in a fresh process.
+func (e *Env) EngineStuck(what string) {
+	if !livenessProps[e.PropID] {
+		panic(harnessError{what})
+	}
+	buf := make([]byte, 1<<18)
+	n := runtime.Stack(buf, true)
+	var frames []string
+	for _, l := range strings.Split(string(buf[:n]), "\n") {
+		if strings.Contains(l, "quickfixgo/quickfix.") && !strings.Contains(l, "verifsim") {
+			frames = append(frames, strings.TrimSpace(l))
+			if len(frames) > 25 {
+				break
+			}
+		}
+	}
+	fp := e.PropID + "/engine-does-not-stop"
+	rf := map[string]any{"property": e.PropID, "seed": e.Seed, "decisions": e.Ch.Log, "fingerprint": fp, "emergency": true,
+		"detail": what + "; engine goroutines: " + strings.Join(frames, " | "), "config": e.Cfg, "trace": e.Sample, "history_tail": e.History()}
+	b, _ := json.MarshalIndent(rf, "", " ")
+	if out := os.Getenv("VERIF_OUT"); out != "" {
+		os.WriteFile(out+".emergency.json", b, 0o644)
+	}
+	fmt.Printf("REPLAY fingerprint=%s emergency\nDETAIL %s\n", fp, what)
+	os.Exit(4)
 }
